@@ -378,10 +378,40 @@ func vfC03Tile(c int) {
 
 // ---- keys/values tables are a deterministic function of the features (any map order) ----
 
-func vfC03Tables_N(tier int) int     { return 1 }
-func vfC03Tables_Label(c int) string { return "key/value tables" }
+func vfC03Tables_N(tier int) int     { return 2 }
+func vfC03Tables_Label(c int) string { return []string{"key/value tables", "integer values of different Go types"}[c] }
+
+// every value in the table decodes to the number that was put in, whatever other values of
+// other integer types are in the same layer (typed de-duplication must never alias two numbers)
+func vfC03TableValues() {
+	kve := newKeyValueEncoder()
+	s64, u64 := vfI64("s64"), vfU64("u64")
+	s32, u8 := vfI32("s32"), vfU8("u8")
+	props := []geojson.Properties{{"a": s64, "b": u64}, {"a": u64, "b": int(s32), "c": u8}, {"a": s64, "c": uint(u64)}}
+	want := [][]float64{{float64(s64), float64(u64)}, {float64(u64), float64(s32), float64(u8)}, {float64(s64), float64(u64)}}
+	vfReach("table-values")
+	for i, p := range props {
+		tags, err := encodeProperties(kve, p)
+		vfAssert("encode-no-error", err == nil)
+		vfAssert("tags-length", len(tags) == 2*len(want[i]))
+		for j := range want[i] {
+			if 2*j+1 < len(tags) {
+				vi := int(tags[2*j+1])
+				vfAssert("value-index-in-table", vi >= 0 && vi < len(kve.Values))
+				if vi >= 0 && vi < len(kve.Values) {
+					got, isF := decodeValue(kve.Values[vi]).(float64)
+					vfAssert("table-value-decodes-to-the-number-put-in", vfAnd(isF, got == want[i][j]))
+				}
+			}
+		}
+	}
+}
 
 func vfC03Tables(c int) {
+	if c == 1 {
+		vfC03TableValues()
+		return
+	}
 	kve := newKeyValueEncoder()
 	p1 := geojson.Properties{"b": 1, "a": "x", "c": true, "d": vfI32("d")}
 	p2 := geojson.Properties{"c": true, "e": 1, "a": "y", "b": 1.0}
